@@ -65,6 +65,7 @@ type Lexer struct {
 	err error
 
 	inTag bool
+	inPI  bool // the tag is a processing instruction, which ends at ?> only
 
 	text    []byte
 	attrVal []byte
@@ -113,11 +114,11 @@ func (l *Lexer) Next() (TokenType, []byte) {
 				l.err = parse.NewErrorLexer(l.r, "unexpected NULL character")
 			}
 			return ErrorToken, nil
-		} else if c != '>' && (c != '/' && c != '?' || l.r.Peek(1) != '>') {
+		} else if !l.atTagEnd(c) {
 			return AttributeToken, l.shiftAttribute()
 		}
 		l.r.Skip()
-		l.inTag = false
+		l.inTag, l.inPI = false, false
 		if c == '/' {
 			l.r.Move(2)
 			return StartTagCloseVoidToken, l.r.Shift()
@@ -156,7 +157,7 @@ func (l *Lexer) Next() (TokenType, []byte) {
 				l.r.Move(-2)
 			} else if c == '?' {
 				l.r.Move(2)
-				l.inTag = true
+				l.inTag, l.inPI = true, true
 				return StartTagPIToken, l.shiftStartTag()
 			}
 			l.r.Move(1)
@@ -257,7 +258,7 @@ func (l *Lexer) shiftAttribute() []byte {
 	nameStart := l.r.Pos()
 	var c byte
 	for { // attribute name state
-		if c = l.r.Peek(0); c == ' ' || c == '=' || c == '>' || (c == '/' || c == '?') && l.r.Peek(1) == '>' || c == '\t' || c == '\n' || c == '\r' || c == 0 {
+		if c = l.r.Peek(0); c == ' ' || c == '=' || l.atTagEnd(c) || c == '\t' || c == '\n' || c == '\r' || c == 0 {
 			break
 		}
 		l.r.Move(1)
@@ -298,7 +299,7 @@ func (l *Lexer) shiftAttribute() []byte {
 			}
 		} else { // attribute value unquoted state
 			for {
-				if c = l.r.Peek(0); c == ' ' || c == '>' || (c == '/' || c == '?') && l.r.Peek(1) == '>' || c == '\t' || c == '\n' || c == '\r' || c == 0 {
+				if c = l.r.Peek(0); c == ' ' || l.atTagEnd(c) || c == '\t' || c == '\n' || c == '\r' || c == 0 {
 					break
 				}
 				l.r.Move(1)
@@ -311,6 +312,14 @@ func (l *Lexer) shiftAttribute() []byte {
 	}
 	l.text = l.r.Lexeme()[nameStart:nameEnd]
 	return l.r.Shift()
+}
+
+// atTagEnd returns true if c, the byte at the current position, starts the end of the tag: > /> or ?>, or only ?> in a processing instruction
+func (l *Lexer) atTagEnd(c byte) bool {
+	if l.inPI {
+		return c == '?' && l.r.Peek(1) == '>'
+	}
+	return c == '>' || (c == '/' || c == '?') && l.r.Peek(1) == '>'
 }
 
 func (l *Lexer) shiftEndTag() []byte {
